@@ -2,6 +2,7 @@ package main
 
 import (
 	"fmt"
+	"reflect"
 	"strings"
 )
 
@@ -11,7 +12,7 @@ func init() {
 	register("C07", func(e *Env) {
 		renderPrelude()
 		e.perShard = 50
-		e.rep.Rule = "truthiness matrix: every value kind of the pool (+ Go-only kinds, + an unknown identifier) in the ten contexts if / else-if / ! / !! / x && true / x || false / true && x / false || x / else-if (true && x) / !(false || x), which must agree with each other and with the documented table (nil, false, empty string, empty HTML, nil pointers, unknown identifiers falsy; everything else truthy); if/else-if/else chains of 1..5 branches under every truth assignment with counting helpers as conditions, at top level and nested in for / fn / block helper: the output must be the first truthy branch and the log must show exactly conditions 1..k evaluated; distinct by template+assignment"
+		e.rep.Rule = "truthiness matrix: every value kind of the pool (+ Go-only kinds, + an unknown identifier) in the ten contexts if / else-if / ! / !! / x && true / x || false / true && x / false || x / else-if (true && x) / !(false || x), which must agree with each other and with the documented table (nil, false, empty string, empty HTML, nil pointers, unknown identifiers falsy; everything else truthy); if/else-if/else chains of 1..5 branches (with text blocks, and with some blocks empty) under every truth assignment with counting helpers as conditions, at top level and nested in for / fn / block helper: the output must be the first truthy branch and the log must show exactly conditions 1..k evaluated; distinct by template+assignment"
 		pool := c04pool()
 		falsy := map[string]bool{"vnil": true, "vf": true, "ve": true, "vhe": true, "vnp": true}
 		ctxT := func(x string) string {
@@ -38,7 +39,13 @@ func init() {
 			}
 		}
 		extra := c04extra()
-		xfalsy := map[string]bool{"xnilT1": true, "xniltime": true}
+		xfalsy := map[string]bool{}
+		for k, v := range extra {
+			// the Go-only kinds that are falsy: typed nil pointers
+			if rv := reflect.ValueOf(v); rv.Kind() == reflect.Ptr && rv.IsNil() {
+				xfalsy[k] = true
+			}
+		}
 		for k := range extra {
 			c := RCase{Tmpl: ctxT(k), Binds: pool}
 			o := runRenderExtra(c, extra)
@@ -56,9 +63,25 @@ func init() {
 		}
 		for n := 1; n <= maxN; n++ {
 			for hasElse := 0; hasElse < 2; hasElse++ {
-				for mask2 := 0; mask2 < 2<<n; mask2++ {
+				for mask3 := 0; mask3 < 4<<n; mask3++ {
+					mask2 := mask3 % (2 << n)
+					// style 1: some branches have EMPTY blocks ({} or { %><% }): an empty first-truthy
+					// branch still ends the chain
+					style := mask3 / (2 << n)
 					mask := mask2 % (1 << n)
 					unknownVariant := mask2 >= 1<<n
+					body := func(i int, text string) (src, out string) {
+						if style == 1 {
+							switch (i + mask + n) % 3 {
+							case 0:
+								return "{}", ""
+							case 1:
+								return "{ %><% }", ""
+							}
+						}
+						return "{ %>" + text + "<% }", text
+					}
+					outs := map[int]string{}
 					unknownAt := map[int]bool{}
 					binds := []Bind{{"blk", vGo(103)}}
 					var sb strings.Builder
@@ -76,14 +99,19 @@ func init() {
 							cond = fmt.Sprintf("nope%d", i+1)
 							unknownAt[i] = true
 						}
+						bsrc, bout := body(i, fmt.Sprintf("B%d", i+1))
+						outs[i] = bout
 						if i == 0 {
-							sb.WriteString("if (" + cond + ") { %>B1<% }")
+							sb.WriteString("if (" + cond + ") " + bsrc)
 						} else {
-							sb.WriteString(fmt.Sprintf(" else if (%s) { %%>B%d<%% }", cond, i+1))
+							sb.WriteString(fmt.Sprintf(" else if (%s) %s", cond, bsrc))
 						}
 					}
+					elseOut := ""
 					if hasElse == 1 {
-						sb.WriteString(" else { %>E<% }")
+						esrc, eout := body(n, "E")
+						elseOut = eout
+						sb.WriteString(" else " + esrc)
 					}
 					sb.WriteString(" %>")
 					first := -1
@@ -96,10 +124,10 @@ func init() {
 					wantOut := ""
 					wantLog := n
 					if first >= 0 {
-						wantOut = fmt.Sprintf("B%d", first+1)
+						wantOut = outs[first]
 						wantLog = first + 1
 					} else if hasElse == 1 {
-						wantOut = "E"
+						wantOut = elseOut
 					}
 					for wi, w := range wraps {
 						if wi > 0 && (mask+n+hasElse)%3 != 0 && !e.Thorough() {
